@@ -41,6 +41,12 @@ def configs(tier, seed):
                              trio=["mean", "count", "sum"]))
         out.append(C03._base(2, [[2]], 2, [1], "sum", weights="pair", ignore=True, fact="nan", K=1, fmt="pair", side=side,
                              trio=["valid_count", "mean", "sum"]))
+    # array-cube-only statistics computed together with others (any order), mixed missing-value policies
+    for trio, K in ((["covariance:ign", "max:prop", "sum:prop"], 2), (["corrcoef:ign", "min:prop", "count:prop"], 2),
+                    (["stddev:ign", "quantile:prop", "valid_count:prop"], 1), (["max:prop", "covariance:ign", "mean:ign"], 2)):
+        out.append(C03._base(3, [[]], 2, [0], "sum", weights="none", ignore=False, fact="nan", K=K, fmt="nan", side="xcube", trio=trio))
+        if tier == "thorough":
+            out.append(C03._base(3, [[]], 2, [1], "sum", weights="none", ignore=True, fact="nan", K=K, fmt="pair", side="xcube", trio=trio))
     return out
 
 
@@ -111,14 +117,24 @@ def explore(cfg, eng, ctx):
         snaps = snapshot(inputs)
         rma_before = rma
 
-        def mk(agg):
+        def mk(spec):
+            agg, _, pol = spec.partition(":")
+            ign = ignore if not pol else (pol == "ign")
             cls = getattr(mod, prefix + agg)
-            if agg == "valid_count" and fmt == "zero" and not ignore:
-                return cls(fact, weights, ignore, float("nan"))
-            return cls(weights, None, ignore, rma) if agg == "count" else cls(fact, weights, ignore, rma)
+            if agg == "valid_count" and fmt == "zero" and not ign:
+                return cls(fact, weights, ign, float("nan"))
+            if agg == "count":
+                return cls(weights, None, ign, rma)
+            if agg in ("max", "min"):
+                return cls(fact, ign, rma)
+            if agg == "quantile":
+                return cls(fact, 0.5, weights, ign, rma)
+            return cls(fact, weights, ign, rma)
 
-        def fm(agg):
-            return "nan" if (agg == "valid_count" and fmt == "zero" and not ignore) else fmt
+        def fm(spec):
+            agg, _, pol = spec.partition(":")
+            ign = ignore if not pol else (pol == "ign")
+            return "nan" if (agg == "valid_count" and fmt == "zero" and not ign) else fmt
         try:
             cube = (C.ccubes.ccube if side == "ccube" else C.xcubes.xcube)(dims, interacting_shape=ishape)
             eng.assert_(unchanged(snaps), "cube construction changed an argument")
@@ -142,6 +158,17 @@ def explore(cfg, eng, ctx):
             other = cube2.calculate(fs)
             for a, t, s in zip(trio, other, alone):
                 eng.assert_(C05.same_outputs(t, s, fm(a)), "re-using the %s object on another cube gave a different result" % a)
+            # an unweighted / scalar-weight count object used first on a cube with ANOTHER number of rows
+            for a in trio:
+                if a.partition(":")[0] == "count" and data.wform in ("none", "scalar"):
+                    cfg2 = dict(cfg, N=cfg["N"] + 1, fact="none")
+                    data2 = aggs.Data(eng, cfg2, tag="o_")
+                    dims2 = data2.index_dims(C, cfg["commons"]) if side == "ccube" else data2.dense_dims()
+                    fresh = mk(a)
+                    (C.ccubes.ccube if side == "ccube" else C.xcubes.xcube)(dims2, interacting_shape=ishape).calculate([fresh])
+                    back = cube.calculate([fresh])[0]
+                    eng.assert_(C05.same_outputs(back, alone[trio.index(a)], fm(a)),
+                                "a count object used on a cube with another number of rows gives a different result afterwards")
             eng.assert_(unchanged(snaps), "a later calculate changed an argument")
             if keys_before is not None:
                 ok = all(list(dict.keys(ix)) == k and ix.common == c and ix.shape == s for ix, (k, c, s) in zip(dims, keys_before))
